@@ -212,11 +212,22 @@ def site_of(obj):
 # --------------------------------------------------------------------------------------------
 # building the real objects
 # --------------------------------------------------------------------------------------------
-CLASSES = {1: ["Table", "ProbabilityTable", "StateTable"],
-           2: ["Table", "ProbabilityTable", "StateActionTable", "TabularPolicy"],
-           3: ["Table", "ProbabilityTable", "StateActionNextStateTable"]}
-MDP_CLASSES = {"StateTable", "StateActionTable", "StateActionNextStateTable", "TabularPolicy"}
-PROB_CLASSES = {"ProbabilityTable", "TabularPolicy"}
+# JointProbabilityTable: the configuration option probs_start_index = -2 of ProbabilityTable (distributions span the
+# last two fields, so t[k0] of a 3-field table is a 2-field TableDistribution); TableDistribution: built directly
+CLASSES = {1: ["Table", "ProbabilityTable", "StateTable", "TableDistribution"],
+           2: ["Table", "ProbabilityTable", "StateActionTable", "TabularPolicy", "JointProbabilityTable", "TableDistribution"],
+           3: ["Table", "ProbabilityTable", "StateActionNextStateTable", "JointProbabilityTable"]}
+_JOINT = []
+
+
+def joint_class():
+    if not _JOINT:
+        from msdm.core.table import ProbabilityTable
+
+        class JointProbabilityTable(ProbabilityTable):
+            probs_start_index = -2
+        _JOINT.append(JointProbabilityTable)
+    return _JOINT[0]
 
 
 def build(cls, doms, labeling, container):
@@ -231,6 +242,11 @@ def build(cls, doms, labeling, container):
         return Table(data=data, table_index=TableIndex(field_names=names, field_domains=pd))
     if cls == "ProbabilityTable":
         return ProbabilityTable(data=data, table_index=TableIndex(field_names=names, field_domains=pd))
+    if cls == "JointProbabilityTable":
+        return joint_class()(data=data, table_index=TableIndex(field_names=names, field_domains=pd))
+    if cls == "TableDistribution":
+        from msdm.core.table.table import TableDistribution
+        return TableDistribution(data=data, table_index=TableIndex(field_names=names, field_domains=pd))
     if cls == "StateTable":
         return StateTable.from_state_list(pd[0], data)
     if cls == "StateActionTable":
@@ -436,10 +452,13 @@ def cross_check(state, tr):
 # --------------------------------------------------------------------------------------------
 # judging
 # --------------------------------------------------------------------------------------------
-def expected_class(objcls, ndim_left):
-    if objcls in ("ProbabilityTable", "TabularPolicy") and ndim_left <= 1:
+def expected_class(obj, ndim_left):
+    """Class of a new sub-table (implementation-shaped, DRIFT level): probability tables hand out TableDistributions
+    once no more than -probs_start_index fields are left; everything else rebuilds its own class."""
+    from msdm.core.table import ProbabilityTable
+    if isinstance(obj, ProbabilityTable) and ndim_left <= -obj.probs_start_index:
         return "TableDistribution"
-    return objcls
+    return type(obj).__name__
 
 
 def check_dist(ctx, fail, row, dom, entries, labeling, where):
@@ -553,7 +572,7 @@ def check_iface(ctx, fail, obj, doms, cells, labeling, where, root_last=None):
                 return
             if st == "ok" and type(s) is not type(direct):
                 ctx.drift("items-class", {"path": path, "yielded": type(s).__name__, "getitem": type(direct).__name__})
-            if rows or (st == "ok" and kind_of(direct) == "distribution"):
+            if rows or (len(doms) == 2 and st == "ok" and kind_of(direct) == "distribution"):
                 flag = [True]
 
                 def dfail(kind, what, _flag=flag):
@@ -659,8 +678,8 @@ def judge_transition(ctx, table, state, tr, obj, root_names, objcls, labeling, c
         elif not is_table(r) or not ((tr["same"] and matched_o) or table_matches(
                 r, rdoms, rcells, labeling, tr["_expo"] if tr["same"] else tr["_expr"]) is None):
             d = "sub-table differs from the reference machine"
-        elif r is not obj and type(r).__name__ != expected_class(viewcls, len(rdoms)):
-            d = f"result class {type(r).__name__}, reference machine says {expected_class(viewcls, len(rdoms))}"
+        elif r is not obj and type(r).__name__ != expected_class(obj, len(rdoms)):
+            d = f"result class {type(r).__name__}, reference machine says {expected_class(obj, len(rdoms))}"
         elif list(r.table_index.field_names) != [root_names[i - 1] for i in tr["names"]]:
             d = f"field names {list(r.table_index.field_names)} for surviving fields {tr['names']} of {root_names}"
         if d is not None:
